@@ -191,7 +191,10 @@ func (c *FeeController) ComputeFeesToDistribute(
 				fees.Values,
 				actiontypes.RecipientAmount{Recipient: addr, Amount: sdk.NewCoins(fee)},
 			)
-			fees.Total = fees.Total.Add(feeAmount)
+			fees.Total, err = fees.Total.SafeAdd(feeAmount)
+			if err != nil {
+				return nil, errorsmod.Wrap(err, "total fees overflow")
+			}
 		}
 	}
 
